@@ -81,8 +81,16 @@ def stepTyped (t : TRing Int) (isChar : Bool) (w : List String) : Option (TRing 
       let v ← v.toInt?
       let t' ← t.push (norm v)
       pure (t', "-")
-  | ["pop"] => do let t' ← t.pop; pure (t', "-")
-  | ["clear"] => do let t' ← TRing.clear (t.r.size.toNat + 1) t; pure (t', "-")
+  | ["pushfull", v] => do   -- finding probe: push on a full ring (same code path as push)
+      let v ← v.toInt?
+      let t' ← t.push (norm v)
+      pure (t', "-")
+  | ["pushalias"] => do   -- x.push(x.head_place()): the argument is the head slot itself
+      let v ← t.headPlace
+      let t' ← t.push v
+      pure (t', "-")
+  | ["pop"] | ["popempty"] => do let t' ← t.pop 0; pure (t', "-")
+  | ["clear"] => do let t' ← TRing.clear 0 (t.r.size.toNat + 1) t; pure (t', "-")
   | ["mh1"] => pure ({ t with r := ringMoveHeadOne t.r }, "-")
   | ["mt1"] => pure ({ t with r := ringMoveTailOne t.r }, "-")
   | ["rst"] => pure (t.reset, "-")
@@ -100,11 +108,16 @@ def stepTyped (t : TRing Int) (isChar : Bool) (w : List String) : Option (TRing 
       let a ← i32 a; let b ← i32 b
       pure (t, toString (t.distance a b).toInt)
   | ["setlast", i] => do let i ← i32 i; pure (t.setLastIndex i, "-")
+  | ["settail", i] => do let i ← u32 i; pure ({ t with r := { t.r with tail := i } }, "-")
+  | ["fillbuf"] => pure ({ t with buf := (List.range t.buf.length).map fun (i : Nat) => norm ((i : Int) + 1) }, "-")
   | ["copy"] => pure (TRing.copy 0 t, "-")
   | ["assign"] => pure (TRing.assign (TRing.mk' 0 3) t, "-")
   | ["move"] =>
       let (n, old) := t.move
       pure (n, s!"{old.buf.length} {old.r.size.toNat}")
+  | ["moveback", n] => do   -- move-construct another ring from x, then x.resize(n) and carry on with x
+      let n ← n.toNat?
+      pure (TRing.resize 0 t.move.2 n, "-")
   | ["write", d] => do
       let d ← parseBytes? d
       let (r', buf', n) ← ringWrite t.r t.buf (d.map fun b => b.toInt)
@@ -169,23 +182,121 @@ def stepBring (b : ByteRing) (mem : List Byte) (w : List String) : Option (ByteR
 
 /-- `lifecount <n> <script>`: a ring<Tracked>(n) runs the script (u push, o pop,
 c clear, z resize(n), y copy-construct and continue with the copy, m move-construct
-and continue with the new object) and is destroyed; the three lifetime counters -/
-def lifeScript (l : LRing Int) (n : Nat) : List Char → Nat → Option (LRing Int)
+and continue with the new object; U push although full, O pop although empty) and is
+destroyed; the three forbidden-event counters and the constructor / destructor
+calls on slots of the ring's arrays -/
+def lifeScript (l : VRing Int) (n : Nat) : List Char → Nat → Option (VRing Int)
   | [], _ => some l.destroy
   | ch :: rest, k =>
     match ch with
-    | 'u' => (l.push (k : Int)).bind fun l' => lifeScript l' n rest (k + 1)
-    | 'o' => l.pop.bind fun l' => lifeScript l' n rest k
-    | 'c' => (LRing.clear (l.t.r.size.toNat + 1) l).bind fun l' => lifeScript l' n rest k
-    | 'z' => lifeScript (LRing.resize 0 l n) n rest k
-    | 'y' => lifeScript (LRing.copyAndDrop 0 l) n rest k
+    | 'u' | 'U' => (l.push (k : Int)).bind fun l' => lifeScript l' n rest (k + 1)
+    | 'o' | 'O' => (l.pop 0).bind fun l' => lifeScript l' n rest k
+    | 'a' => lifeScript l.pushSelf n rest k
+    | 'c' => (VRing.clear 0 (l.t.r.size.toNat + 1) l).bind fun l' => lifeScript l' n rest k
+    | 'z' | 'M' => lifeScript (VRing.resize 0 l n) n rest k   -- M: the elements die with the moved-to object
+    | 'y' => lifeScript (VRing.copyAndDrop 0 l) n rest k
     | 'm' => lifeScript l.moveAndDrop n rest k
+    | 'g' => lifeScript (VRing.assignAndDrop 0 l 3) n rest k
     | _ => none
 
 def lifeCount (n : Nat) (script : String) : String :=
-  match lifeScript (LRing.mk' 0 n) n (if script == "-" then [] else script.toList) 0 with
-  | some l => s!"{l.overLive} {l.deadDtor} {l.deadRead}"
+  match lifeScript (VRing.mk' 0 n) n (if script == "-" then [] else script.toList) 0 with
+  | some l => s!"{l.overLive} {l.deadDtor} {l.deadRead} {l.ctor} {l.dtor}"
   | none => "fault"
+
+/-- widths and signedness of the index / size / counter types the model embeds:
+`ring_head` fields `unsigned int` (BitVec 32), `ring_counter` fields `int`
+(checked 32-bit), `cyclic_buffer::_size` and `unbounded_array::m_size` `size_t`
+(64), return types of ring_read/ring_write (`int`), igris::ring::read/write
+(`size_t`), avail/room/size (`unsigned`), index_of/tail_index/distance/fixup_index (`int`) -/
+def widthsLine : String :=
+  "head u4 tail u4 size u4 rc.counter i4 rc.size i4 cyc._size u8 arr.m_size u8 " ++
+  "ring_read i4 ring_write i4 ring_avail u4 ring_room u4 ring_fixup_index i4 putc i4 getc i4 " ++
+  "t.read u8 t.write u8 t.avail u4 t.room u4 t.size u4 t.index_of i4 t.tail_index i4 t.distance i4 " ++
+  "t.fixup_index i4 ring_head 12 ring_counter 8 int_max 2147483647 uint_max 4294967295"
+
+/-- byte `j` of the deterministic data sequence of the `hist` ops -/
+def histByte (j : Nat) : Byte := ([0xff, 0x80, 0x00, 0x7f, 0x01, 0xfe, 0x81] : List Byte).getD (j % 7) 0
+
+def histBytes (j n : Nat) : List Byte := (List.range n).map fun i => histByte (j + i)
+
+def tokNum (s : String) : Nat := (s.drop 1).toNat?.getD 0
+
+/-- `hist <size> <script>`: ONE ring_head of `size` slots runs the whole script
+(`p` putc, `g` getc, `wN` ring_write of N bytes, `rN` ring_read of N); result =
+the per-operation result lines joined by `;` -/
+def histRing (size : Nat) (toks : List String) : String :=
+  let rec go (r : RingHead) (buf : List Byte) (j : Nat) (acc : List String) : List String → List String
+    | [] => acc.reverse
+    | tk :: rest =>
+      let (op, j') : Option Op × Nat :=
+        if tk == "p" then (some (.putc (histByte j)), j + 1)
+        else if tk == "g" then (some .getc, j)
+        else if tk.startsWith "w" then (some (.write (histBytes j (tokNum tk))), j + tokNum tk)
+        else if tk.startsWith "r" then (some (.read (tokNum tk)), j)
+        else (none, j)
+      match op with
+      | none => (("bad-op") :: acc).reverse
+      | some op =>
+        match stepRing r buf op with
+        | none => (("fault") :: acc).reverse
+        | some (r', b', o) => go r' b' j' ((showOut o ++ " " ++ ringState r') :: acc) rest
+  ";".intercalate (go (ringInit (BitVec.ofNat 32 size)) (initPattern size) 0 [] toks)
+
+/-- `histt <n> <script>`: ONE igris::ring<char>(n) runs the script (`u` push,
+`o` tail() then pop(), `wN` write, `rN` read) -/
+def histTyped (n : Nat) (toks : List String) : String :=
+  let rec go (t : TRing Int) (j : Nat) (acc : List String) : List String → List String
+    | [] => acc.reverse
+    | tk :: rest =>
+      let (lines, j') : List (List String) × Nat :=
+        if tk == "u" then ([["push", toString (histByte j).toInt]], j + 1)
+        else if tk == "o" then ([["tail"], ["pop"]], j)
+        else if tk.startsWith "w" then ([["write", bytesHex (histBytes j (tokNum tk))]], j + tokNum tk)
+        else if tk.startsWith "r" then ([["read", toString (tokNum tk)]], j)
+        else ([["bad"]], j)
+      let rec sub (t : TRing Int) (acc : List String) : List (List String) → Option (TRing Int × List String)
+        | [] => some (t, acc)
+        | w :: ws =>
+          match stepTyped t true w with
+          | none => none
+          | some (t', out) => sub t' ((out ++ " " ++ typedState t') :: acc) ws
+      match sub t acc lines with
+      | none => (("fault") :: acc).reverse
+      | some (t', acc') => go t' j' acc' rest
+  ";".intercalate (go (TRing.mk' 0 n) 0 [] toks)
+
+/-- what a harness object with `init_priority(101)` computes BEFORE main() with
+local objects only (no igris code depends on static initialisation order): a C
+ring of 5 slots, an igris::ring<int>(3), a cyclic_buffer<int>(3), a ring_counter -/
+def premainLine : String :=
+  let r0 := ringInit 5
+  let b0 := initPattern 5
+  let out : Option String := do
+    let (r1, b1, rc1) ← ringPutc r0 b0 0xff
+    let (r2, b2, rc2) ← ringPutc r1 b1 0x80
+    let (r3, g1) ← ringGetc r2 b2
+    let (r4, b4, w) ← ringWrite r3 b2 [1, 2, 3, 4, 5]
+    let (r5, rd) ← ringRead r4 b4 9
+    let t0 : TRing Int := TRing.mk' 0 3
+    let t1 ← t0.push 1
+    let t2 ← t1.push 2
+    let t3 ← t2.push 3
+    let la ← t3.last
+    let t4 ← t3.pop 0
+    let tl ← t4.tail
+    let gl ← t4.getLast 0 2 true
+    let c0 : Cyclic Int := Cyclic.mk' 0 3
+    let (c1, _) ← c0.push 10
+    let (c2, _) ← c1.push 11
+    let (c3, _) ← c2.push 12
+    let (c4, old) ← c3.push 13
+    let a0 ← c4.nth 0
+    let a2 ← c4.nth 2
+    let k ← rcIncrementC (rcInit 7) 9
+    let pv ← rcPrevC k 5
+    pure s!"{rc1} {rc2} {g1} {w} {bytesHex rd} {ringState r5} {(ringFixupIndex r5 (-1)).toInt} {la} {tl} {ints gl} {(ringAvail t4.r).toNat} {old} {a0} {a2} {c4.counter.counter} {k.counter} {pv}"
+  out.getD "fault"
 
 def stepLine (s : St) (line : String) : St × String :=
   match words line with
@@ -199,6 +310,9 @@ def stepLine (s : St) (line : String) : St × String :=
           let t : TRing Int := TRing.mk' 0 k
           (.typed t ((words line).getD 1 "" == "tchar"), "- " ++ typedState t)
       | none => (s, "bad-op")
+  | ["reset", "tempty"] =>
+      let t : TRing Int := TRing.empty
+      (.typed t false, "- " ++ typedState t)
   | ["reset", "cyc", n] =>
       match n.toNat? with
       | some k => let c : Cyclic Int := Cyclic.mk' 0 k; (.cyc c, s!"- {c.counter.counter} {c.fill}")
@@ -216,6 +330,20 @@ def stepLine (s : St) (line : String) : St × String :=
       | some k => (s, lifeCount k script)
       | none => (s, "bad-op")
   | "lifeprobe" :: _ => (s, "-")   -- oracle-only operation: object lifetime is not modelled
+  | "reset" :: "longrun" :: _ => (.none, "-")     -- oracle-only operation: 300 KiB through one ring
+  | ["reset", "widths"] => (.none, widthsLine)
+  | ["reset", "premain"] => (.none, premainLine)
+  | ["reset", "hist", size, script] =>
+      match size.toNat? with
+      | some k => (.none, histRing k (script.splitOn ","))
+      | none => (s, "bad-op")
+  | ["reset", "histt", n, script] =>
+      match n.toNat? with
+      | some k => (.none, histTyped k (script.splitOn ","))
+      | none => (s, "bad-op")
+  | ["reset", "sizezero", "mh"] => (.none, "hang")     -- ring_fixup_terminates_iff: never returns
+  | ["reset", "sizezero", _] => (.none, "fault")       -- division by zero / store through nullptr
+  | ["reset", "movedpush", _] => (.none, "fault")      -- ring_copy_move: push on a ring without storage
   | w =>
     match s with
     | .none => (s, "bad-op")
